@@ -2494,6 +2494,9 @@ impl DnsIncoming {
         let data = &self.data[..];
         let start_offset = self.offset;
         let mut offset = start_offset;
+        // Every pointer must point before the start of this name and before the
+        // previous pointer, so that following pointers always terminates.
+        let mut max_pointer = start_offset;
         let mut name = "".to_string();
         let mut at_end = false;
 
@@ -2560,13 +2563,14 @@ impl DnsIncoming {
                         )));
                     }
                     let pointer = (u16_from_be_slice(slice) ^ 0xC000) as usize;
-                    if pointer >= start_offset {
+                    if pointer >= max_pointer {
                         // Error: could trigger an infinite loop.
                         return Err(Error::Msg(format!(
-                            "Invalid name compression: pointer {} must be less than the start offset {}",
-                            &pointer, &start_offset
+                            "Invalid name compression: pointer {} must be less than the start offset or the previous pointer {}",
+                            &pointer, &max_pointer
                         )));
                     }
+                    max_pointer = pointer;
 
                     // A pointer marks the end of a domain name.
                     if !at_end {
